@@ -532,6 +532,9 @@ def run_plan(plan, seed, choices=None):
                         s2 = perseq[addr][idx_]
                         last_up = max([e_[0] for e_ in rec if e_[3] == addr and e_[2] in ('up', 'add') and e_[0] < s2] or [0])
                         false_up = any(e_[4] in ('cancel', 'success') and last_up < e_[0] < s2 for e_ in by_host.get(addr, []))
+                        # (also when that up handling had no reconnector to take away - the driver had not noticed the failure yet when
+                        # the UP event came: the call of Cluster.on_up itself is what counts)
+                        false_up = false_up or any(a_ == addr and last_up < s_ < s2 for (s_, a_) in up_entries)
                         V.add('C25/notify-once', 'down-twice:' + name + (':during-up-handling' if false_up else ''),
                               '%s saw for host %s: %r' % (name, addr, ks))
                         break
